@@ -1,34 +1,94 @@
 import ErgoVerif.Model.TM
 /-!
-RouteLink* / RouteMonitor* with a REMOTE target (node/core.go) are two steps:
-  1. `connection.LinkPID(pid, target)` — request/response with the peer; returns nil when the peer recorded the relation
+RouteLink* / RouteMonitor* with a REMOTE target (node/core.go) are three steps:
+  1. `connection.LinkPID(pid, target)` — request/response with the peer over the connection found in the table;
+     returns nil when the peer recorded the relation
   2. `n.targetManager.AddLink(pid, target)` — the local record
-and `unregisterConnection → RouteNodeDown(peer)` may run between them (another goroutine).
-This model interleaves those steps with node-down events.
+  3. (when the code has it, `rc`) `n.network.Connection(target.Node)` once more: if the entry is gone or is another
+     connection object, the relation is removed again and the request returns ErrNoConnection — unless the node-down
+     drain has already taken it (then the notification is on its way and the request returns nil)
+and `unregisterConnection(peer)` — delete the table entry, then RouteNodeDown(peer) — may run between any two of them
+(another goroutine), as may the registration of a new connection with the same node.
+
+Connections are numbered as they are registered. A process makes one request at a time (the calls are synchronous in
+the caller), so there is at most one request in flight per consumer.
 -/
 namespace ErgoVerif.LinkRace
 open ErgoVerif.TM
 
+/-- a request in flight: the relation, the node it points to, the connection the request went over -/
+structure Req where
+  k : Key
+  n : Node
+  g : Nat
+deriving DecidableEq, Repr
+
 inductive Ev
-  | answered (k : Key)     -- step 1 returned nil for the relation k
-  | add (k : Key)          -- step 2 of a previously answered request
-  | down (n : Node)        -- RouteNodeDown(n)
+  | up (n : Node)              -- a connection with n is registered
+  | down (n : Node)            -- unregisterConnection(n)
+  | answered (k : Key) (n : Node)   -- step 1 returned nil
+  | add (r : Req)              -- step 2
+  | recheck (r : Req)          -- step 3
 deriving DecidableEq, Repr
 
 structure St where
   tm : TM.St
-  pending : List Key       -- answered, not yet recorded
+  conn : List (Node × Nat)     -- the connection table: node ↦ number of its connection
+  next : Nat
+  pending : List Req           -- answered, not yet recorded
+  unchecked : List Req         -- recorded, table not looked at again yet
   notifs : List Notif
+  granted : List Key           -- requests that returned nil
+  refused : List Key           -- requests that returned ErrNoConnection after the insert
 
-def init : St := ⟨TM.init, [], []⟩
+def init : St := ⟨TM.init, [], 0, [], [], [], [], []⟩
 
-def step (s : St) : Ev → St
-  | .answered k => { s with pending := k :: s.pending }
-  | .add k => if k ∈ s.pending then { s with tm := (TM.add s.tm k).1, pending := s.pending.erase k } else s
-  | .down n => { s with tm := (routeNodeDown s.tm n).1, notifs := s.notifs ++ (routeNodeDown s.tm n).2 }
+def lookup (n : Node) : List (Node × Nat) → Option Nat
+  | [] => none
+  | c :: cs => if c.1 = n then some c.2 else lookup n cs
 
-def run (s : St) : List Ev → St
+/-- the table without the entry of node n -/
+def dropNode (n : Node) : List (Node × Nat) → List (Node × Nat)
+  | [] => []
+  | c :: cs => if c.1 = n then dropNode n cs else c :: dropNode n cs
+
+def St.connOf (s : St) (n : Node) : Option Nat := lookup n s.conn
+
+def St.busy (s : St) (c : Pid) : Bool := (s.pending ++ s.unchecked).any (fun r => r.k.consumer = c)
+
+def step (rc : Bool) (s : St) : Ev → St
+  | .up n =>
+    match s.connOf n with
+    | some _ => s
+    | none => { s with conn := (n, s.next) :: s.conn, next := s.next + 1 }
+  | .down n =>
+    match s.connOf n with
+    | none => s
+    | some _ =>
+      { s with conn := dropNode n s.conn, tm := (routeNodeDown s.tm n).1,
+               notifs := s.notifs ++ (routeNodeDown s.tm n).2 }
+  | .answered k n =>
+    match s.connOf n with
+    | none => s                                     -- no connection: the request fails before anything is recorded
+    | some g =>
+      if k.target.onNode n && !s.busy k.consumer then { s with pending := ⟨k, n, g⟩ :: s.pending } else s
+  | .add r =>
+    if r ∈ s.pending then
+      let s1 := { s with pending := s.pending.erase r }
+      if r.k ∈ s.tm.rel then s1                     -- Add* returns ErrTargetExist: the request returns that error
+      else if rc then { s1 with tm := (TM.add s.tm r.k).1, unchecked := r :: s.unchecked }
+      else { s1 with tm := (TM.add s.tm r.k).1, granted := r.k :: s.granted }
+    else s
+  | .recheck r =>
+    if r ∈ s.unchecked then
+      let s1 := { s with unchecked := s.unchecked.erase r }
+      if s.connOf r.n = some r.g then { s1 with granted := r.k :: s.granted }
+      else if r.k ∈ s.tm.rel then { s1 with tm := (TM.remove s.tm r.k).1, refused := r.k :: s.refused }
+      else { s1 with granted := r.k :: s.granted }  -- the drain has taken it (and notified)
+    else s
+
+def run (rc : Bool) (s : St) : List Ev → St
   | [] => s
-  | e :: es => run (step s e) es
+  | e :: es => run rc (step rc s e) es
 
 end ErgoVerif.LinkRace
